@@ -89,7 +89,7 @@ def run(ctx, deep=False):
     ctx.coverage["rule"] = (
         "searches with 0..6 datagrams arriving at ticks around the three request instants (never exactly on one): grammar-generated "
         "valid responses (commas / multi-byte text / empty names / fields of 1..300 bytes), echoes of the request, the other generation's response, missing "
-        "parts, marker misplaced, invalid UTF-8, empty and random datagrams, duplicates; broadcast and unicast; the real "
+        "parts, marker misplaced, invalid UTF-8, empty and random datagrams, duplicates; broadcast and unicast; socket errors reported to the protocol (error_received) in 30 % of the searches; the real "
         "AirTouchDiscoverer.search() on the virtual clock with a fake UDP endpoint compared with the Lean model's search and judged by "
         "Spec.Discovery (request instants, return instant, exactly the valid distinct responses); factory.discover() clients checked "
         "for model, host, port 9004/9005, id, name, serial")
@@ -100,12 +100,16 @@ def run(ctx, deep=False):
         cases.append((gen, scenario(gen, rng), rng.choice([None, None, "192.168.1.5"])))
     cases.append((4, [], None))
     cases.append((5, [], "10.1.1.1"))
-    reals = [discharness.run_search(g, a, rh) for g, a, rh in cases]
+    # socket errors reported to the protocol during a search (an ICMP "port unreachable" for an earlier request while the console is still
+    # booting, a refused send): not datagrams - the schedule and the consoles reported are those of the arrivals alone
+    errs = [sorted(rng.choice([0, 1, 2, 3, 4, 5, 6, 9]) for _ in range(rng.choice([1, 1, 2, 3]))) if rng.random() < 0.3 else [] for _ in cases]
+    ctx.count("searches with socket errors reported", sum(1 for e in errs if e))
+    reals = [discharness.run_search(g, a, rh, e) for (g, a, rh), e in zip(cases, errs)]
     model = ctx.driver(["disc %d %s" % (g, fmt(a)) for g, a, rh in cases]) if ctx.driver_ok else [None] * len(cases)
     spec = ctx.oracle(["discspec %d %s" % (g, fmt(a)) for g, a, rh in cases])
     import re
     worst = None
-    for (g, a, rh), r, m, s in zip(cases, reals, model, spec):
+    for (g, a, rh), er, r, m, s in zip(cases, errs, reals, model, spec):
         ctx.case(json.dumps([g, [(t, d.hex()) for t, d in a], rh]), nontrivial=len(a) > 0)
         got = "sent=%s ret=%d resp=[%s]" % (str(r["sent"]).replace(" ", "").replace(",", ", "), r["ret"], ",".join(sorted(show(r["responses"]))))
         ctx.count("responses:%d" % len(r["responses"]))
@@ -122,16 +126,18 @@ def run(ctx, deep=False):
             why = "request datagram is %r" % (r["data"],)
         if not r["closed"] or r["pending"]:
             why = "endpoint not closed / tasks left after the search returned"
-        if why and (worst is None or len(a) < len(worst[1])):
-            worst = (g, a, rh, why, got)
+        if why and er:
+            why += " (socket errors reported to the protocol at ticks %s)" % er
+        if why and (worst is None or len(a) + len(er) < len(worst[1]) + len(worst[5])):
+            worst = (g, a, rh, why, got, er)
         if m is not None:
             mm = re.sub(r",port=\d+,cname=[0-9a-f-]*", "", m)
             mm = re.sub(r"resp=\[(.*)\]", lambda x: "resp=[" + ",".join(sorted(re.findall(r"R\([^)]*\)", x.group(1)))) + "]", mm)
             if mm != got:
                 ctx.tie_broken("correspondence:discovery.search", "model %s != implementation %s on %s" % (mm, got, fmt(a)), scenario=[g, fmt(a), rh])
     if worst:
-        g, a, rh, why, got = worst
-        ctx.violation("C18:search", "discovery (AirTouch %d): %s" % (g, why), kind="history", scenario=[g, fmt(a), rh],
+        g, a, rh, why, got, er = worst
+        ctx.violation("C18:search", "discovery (AirTouch %d): %s" % (g, why), kind="history", scenario=[g, fmt(a), rh] + ([er] if er else []),
                       implementation_output=got, spec_verdict=why)
     # the same discoverer object used again (an application that looks for consoles once more later): every search behaves as the first one
     # on a fresh object - same request instants, exactly the consoles that answer THIS search
@@ -223,9 +229,9 @@ def replay(ctx, data):
     if sc[0] == "factory":
         print("factory scenario:", sc)
         return 1
-    g, arr, rh = sc
+    g, arr, rh = sc[:3]
     a = [(int(x.split(":")[0]), bytes.fromhex(x.split(":")[1]) if x.split(":")[1] != "-" else b"") for x in arr.split()]
-    r = discharness.run_search(g, a, rh)
+    r = discharness.run_search(g, a, rh, sc[3] if len(sc) > 3 else ())
     print(r["sent"], r["ret"], show(r["responses"]))
     print(ctx.oracle(["discspec %d %s" % (g, arr)])[0])
     return 1
